@@ -371,6 +371,10 @@ class Run:
                 except Exception as e:
                     self.log(f"search raised {type(e).__name__}: {e}")
                     found = None
+            if found and any(k["key"] == found[0] for k in known):
+                # the search met only a listed finding: that is not the failing input of this broken tie
+                self.log(f"search met only the known finding {found[0]}")
+                found = None
             if found:
                 key, case, what = found
                 path = VERIF / "replays" / f"{self.pid}-{self.seed}-input.json"
@@ -378,6 +382,7 @@ class Run:
                     json.dumps(
                         {"property": self.pid, "kind": "failing-input", "key": key, "case": case, "what": what,
                          "broken": [list(b) for b in self.broken[:5]],
+                         "correspondence_disagreements": [{"op": o, "case": c, "impl": i, "model": m} for o, c, i, m in self.disagreements[:10]],
                          "replay_cmd": f"./check {self.pid} --replay {path}"},
                         indent=1, default=str,
                     )
